@@ -310,7 +310,11 @@ def value_class(vdump):
 def classify(qname, claim, dump, vdump):
     """known-finding class of an unsound definite answer: query, claim, top node of the expression and the
     kind of value that contradicts the claim"""
-    return "C34/%s=%s:%s@%s" % (qname, claim, shape_of(dump), value_class(vdump))
+    vc, sh = value_class(vdump), shape_of(dump)
+    if vc in ("zoo", "nan", "inf") and sh not in ("NaN", "Inf") and claim == "T":
+        # a definite "real" / "complex" answer for an expression that has a pole at the valuation
+        return "C34/pole:%s=%s" % (qname, claim)
+    return "C34/%s=%s:%s@%s" % (qname, claim, sh, vc)
 
 
 def outside_domain(dump):
